@@ -47,6 +47,7 @@ def dispatch (op : String) (j : Json) : Except String Json :=
   | "md.render" => Driver.Md.renderOp j
   | "jira.render" => Driver.Contrib.jiraOp j
   | "xwiki.render" => Driver.Contrib.xwikiOp j
+  | "latex.text" => Driver.Contrib.latexOp j
   | "ping" => pure (Json.str "pong")
   | _ => throw s!"unknown op {op}"
 
